@@ -8,6 +8,7 @@ import (
 	"runtime/debug"
 	"sort"
 	"sync"
+	"time"
 
 	abci "github.com/tendermint/tendermint/abci/types"
 	tmbytes "github.com/tendermint/tendermint/libs/bytes"
@@ -34,6 +35,7 @@ type simWorld struct {
 	handler   sdk.Handler
 	mk        servicekeeper.Keeper // the keeper module calls go through
 	lastPanic string
+	ms        int64
 	height    int64
 	time      int64
 }
@@ -41,7 +43,7 @@ type simWorld struct {
 func newSimWorld(sc *Scenario) *simWorld {
 	app := simapp.Setup(false)
 	app.Commit()
-	w := &simWorld{app: app, height: H0, time: 0}
+	w := &simWorld{app: app, height: H0, time: 0, ms: sc.SubSecondMs}
 	w.begin()
 	// the scenario's in-memory keeper configuration
 	var reg func(k servicekeeper.Keeper)
@@ -57,20 +59,20 @@ func newSimWorld(sc *Scenario) *simWorld {
 					_ = k.StartRequestContext(ctx, id, rc.Consumer)
 				}
 				if sc.Rig.ReentrantRespStartSibs && err != nil {
-				var others [][]byte
-				var consumers []sdk.AccAddress
-				k.IterateRequestContexts(ctx, func(oid tmbytes.HexBytes, oc st.RequestContext) bool {
-					if oc.ModuleName == mod && !bytes.Equal(oid, id) {
-						others = append(others, append([]byte{}, oid...))
-						consumers = append(consumers, oc.Consumer)
+					var others [][]byte
+					var consumers []sdk.AccAddress
+					k.IterateRequestContexts(ctx, func(oid tmbytes.HexBytes, oc st.RequestContext) bool {
+						if oc.ModuleName == mod && !bytes.Equal(oid, id) {
+							others = append(others, append([]byte{}, oid...))
+							consumers = append(consumers, oc.Consumer)
+						}
+						return false
+					})
+					for i := range others {
+						_ = k.StartRequestContext(ctx, others[i], consumers[i])
 					}
-					return false
-				})
-				for i := range others {
-					_ = k.StartRequestContext(ctx, others[i], consumers[i])
 				}
-			}
-			if rc, ok := k.GetRequestContext(ctx, id); ok && sc.Rig.ReentrantSelfKill && err != nil {
+				if rc, ok := k.GetRequestContext(ctx, id); ok && sc.Rig.ReentrantSelfKill && err != nil {
 					_ = k.KillRequestContext(ctx, id, rc.Consumer)
 				}
 				if sc.Rig.Reentrant && err != nil {
@@ -188,7 +190,7 @@ func newSimWorld(sc *Scenario) *simWorld {
 }
 
 func (w *simWorld) begin() {
-	hdr := tmproto.Header{ChainID: "", Height: w.height, Time: T0.Add(timeSec(int(w.time)))}
+	hdr := tmproto.Header{ChainID: "", Height: w.height, Time: T0.Add(timeSec(int(w.time))).Add(time.Duration(w.ms) * time.Millisecond)}
 	w.app.BeginBlock(abci.RequestBeginBlock{Header: hdr})
 	w.ctx = w.app.BaseApp.NewContext(false, hdr)
 }
@@ -298,6 +300,7 @@ func conformOne(sc *Scenario, trace []string) (blocks int, errStr string) {
 	}()
 	rig := NewRig(sc.Rig)
 	s := rig.Genesis(sc.Params, sc.Funds, sc.Extra)
+	s.Ms = sc.SubSecondMs
 	w := newSimWorld(sc)
 	step := func(a Action) string {
 		post, res := Exec(rig, sc, s, a)
